@@ -324,7 +324,7 @@ func WireHeader(r *mon.Rand, o WireHeaderOpts) (*Node, int64) {
 			if r.Bool() {
 				put(refcbor.NInt(3), refcbor.NUint(uint64(r.Intn(70000))))
 			} else {
-				put(refcbor.NInt(3), refcbor.NTstr(mon.Pick(r, "application/cose", "text/plain", "a/b", "text/plain; charset=utf-8", "a/b;c=d")))
+				put(refcbor.NInt(3), refcbor.NTstr(mon.Pick(r, "application/cose", "text/plain", "a/b", "text/plain; charset=utf-8", "a/b;c=d", "application/EDI-X12", "Text/Plain", "a/B+json")))
 			}
 		case 1:
 			put(refcbor.NInt(4), refcbor.NBstr(BytesValue(r)))
@@ -337,7 +337,7 @@ func WireHeader(r *mon.Rand, o WireHeaderOpts) (*Node, int64) {
 			if r.Bool() {
 				put(refcbor.NInt(16), refcbor.NUint(uint64(r.Intn(70000))))
 			} else {
-				put(refcbor.NInt(16), refcbor.NTstr("application/cose"))
+				put(refcbor.NInt(16), refcbor.NTstr(mon.Pick(r, "application/cose", "application/EDI-X12", "a/B+json")))
 			}
 		case 4:
 			// CWT claims; RFC 8392 allows a NumericDate to be an integer or a floating-point number
